@@ -6,6 +6,7 @@ import (
 	"fmt"
 	"os"
 	"runtime/debug"
+	"strings"
 	"time"
 
 	"go.lsp.dev/protocol"
@@ -16,6 +17,38 @@ import (
 	_ "github.com/juev/hledger-lsp/internal/verifx/vatomic"
 	"github.com/juev/hledger-lsp/internal/verifx/wire"
 )
+
+// panicInCodeUnderTest returns the function of the code under test in which the
+// panic was raised: the first frame below the runtime's panic frames, if it
+// belongs to the repository proper (not to the overlaid harness packages).
+func panicInCodeUnderTest(stack string) string {
+	lines := strings.Split(stack, "\n")
+	seenPanic := false
+	for _, l := range lines {
+		if strings.HasPrefix(l, "panic(") {
+			seenPanic = true
+			continue
+		}
+		if !seenPanic || strings.HasPrefix(l, "\t") || strings.HasPrefix(l, "runtime.") || strings.HasPrefix(l, "runtime/") {
+			continue
+		}
+		if strings.HasPrefix(l, "github.com/juev/hledger-lsp/") && !strings.Contains(l, "/verifx/") && !strings.HasPrefix(l, "github.com/juev/hledger-lsp/cmd/verifworker") {
+			if i := strings.LastIndex(l, "("); i > 0 {
+				l = l[:i]
+			}
+			return strings.TrimPrefix(l, "github.com/juev/hledger-lsp/")
+		}
+		return ""
+	}
+	return ""
+}
+
+func firstLineOf(s string) string {
+	if i := strings.Index(s, "\n"); i >= 0 {
+		return s[:i]
+	}
+	return s
+}
 
 func main() {
 	prop := flag.String("prop", "", "property id")
@@ -75,7 +108,16 @@ func main() {
 	func() {
 		defer func() {
 			if p := recover(); p != nil {
-				c.Res.InfraError = fmt.Sprintf("worker panic: %v\n%s", p, debug.Stack())
+				stack := string(debug.Stack())
+				if fn := panicInCodeUnderTest(stack); fn != "" {
+					// a crash of the code under test that no check-specific recover
+					// caught: a violation (no request may crash), not a harness error
+					c.Violate("panic in the code under test|"+fn+"|"+firstLineOf(fmt.Sprint(p)), "no crash",
+						fmt.Sprintf("%v\n%s", p, stack), map[string]any{"panic": fmt.Sprint(p), "function": fn})
+					c.Cap("check aborted by a panic in the code under test")
+					return
+				}
+				c.Res.InfraError = fmt.Sprintf("worker panic: %v\n%s", p, stack)
 			}
 		}()
 		f(c)
